@@ -30,7 +30,7 @@ type Obligation struct {
 	TimeS         float64
 	Model         string
 	Top           *ssa.Function // function under verification when the obligation was generated
-	Candidate     string // model of the quantifier-free relaxation (unvalidated)
+	Candidate     string        // model of the quantifier-free relaxation (unvalidated)
 	noQuantAxioms bool
 	replay        *Replay
 	Output        string
